@@ -629,6 +629,10 @@ class Eval:
             bs = self.facts.bodies[target]
             if len(bs) == 1:
                 return self.function(bs[0], args, depth + 1)
+        if name in ("Vec::len", "slice::len") and len(args) == 1 and isinstance(args[0], tuple) and args[0] and args[0][0] == "list":
+            return ("lit", len(args[0][1]))
+        if name in ("Vec::is_empty", "slice::is_empty") and len(args) == 1 and isinstance(args[0], tuple) and args[0] and args[0][0] == "list":
+            return ("lit", len(args[0][1]) == 0)
         # a crate-local function that did not exist when the rules were written (rules/known_functions.txt) is a helper extracted later:
         # it is transparent (inlined), so that extracting a helper leaves the templates unchanged
         if target in self.facts.bodies and target not in known_functions() and self._helper_depth < 6 and target not in self._helper_stack:
@@ -745,6 +749,18 @@ def pat_vs_term(p, t):
             if p.get("neg") and isinstance(v, (int, float)):
                 v = -v
             return v == t[1]
+        return None
+    if k == "Range":
+        if t[0] == "lit" and isinstance(t[1], int) and not isinstance(t[1], bool):
+            from . import peval
+            lo, hi = peval._bound(p, "lo"), peval._bound(p, "hi")
+            if lo is peval.UNKNOWN or hi is peval.UNKNOWN:
+                return None
+            if lo is not None and t[1] < lo:
+                return False
+            if hi is not None and (t[1] > hi or (t[1] == hi and p.get("end") != "Included")):
+                return False
+            return True
         return None
     if k in ("Path", "TupleStruct", "Struct"):
         r = p.get("res", {})
